@@ -125,6 +125,11 @@ func nilToEmpty(rv reflect.Value, depth int) {
 		t := rv.Type()
 		for i := 0; i < rv.NumField(); i++ {
 			sf := t.Field(i)
+			if sf.Name == "unknownFields" && sf.Type.Kind() == reflect.Slice && rv.Field(i).IsNil() && rv.Field(i).CanAddr() {
+				// cleared with SetUnknown(RawFields{}): empty but allocated
+				*(*[]byte)(rv.Field(i).Addr().UnsafePointer()) = []byte{}
+				continue
+			}
 			if sf.PkgPath != "" {
 				continue
 			}
